@@ -604,7 +604,9 @@ class Interp:
             if e.id in ('set', 'frozenset', 'sorted', 'any', 'all', 'zip', 'abs', 'sum', 'map', 'filter'):
                 return ('builtin', e.id)
             if e.id in self.mod.imports and self.mod.imports[e.id][1] is None:
-                return ('module', self.mod.imports[e.id][0])
+                full = self.mod.imports[e.id][0]
+                # `import a.b` binds the name a (the top-level package); `import a.b as c` binds the submodule
+                return ('module', full.split('.')[0] if full.split('.')[0] == e.id else full)
             if e.id in self.mod.imports and self.mod.imports[e.id][0] in ('functools', 'itertools', 'operator', 'math', 'statistics', 're'):
                 return ('hostattr', f'{self.mod.imports[e.id][0]}.{self.mod.imports[e.id][1]}')
             if e.id in self.mod.imports and getattr(self, 'repo', None) is not None:
@@ -1072,7 +1074,7 @@ class Interp:
     def call_value_hook(self, fn, args, e):
         if isinstance(fn, tuple) and fn and fn[0] == 'hostattr':
             return self.host_function(fn[1], args, e)
-        if isinstance(fn, tuple) and fn and fn[0] == 'extern' and fn[1] in ('functools', 'itertools', 'operator', 're', 'math', 'statistics'):
+        if isinstance(fn, tuple) and fn and fn[0] == 'extern' and fn[1] in ('functools', 'itertools', 'operator', 're', 'math', 'statistics', 'pathlib', 'os.path', 'copy', 'urllib.parse'):
             return self.host_function(f'{fn[1]}.{fn[2]}', args, e)
         if isinstance(fn, tuple) and fn and fn[0] == 'itemgetter':
             return self.eval_subscript_value(args[0], fn[1], e)
@@ -1112,6 +1114,19 @@ class Interp:
             return ARegex('<anonymous>')
         if name in ('re.match', 're.search', 're.fullmatch', 're.sub', 're.split', 're.findall') and len(args) >= 2 and isinstance(args[0], str):
             return self.call_method(ARegex('<anonymous>', args[0], 0), name[3:], args[1:], e)
+        if name in ('re.match', 're.search', 're.fullmatch', 're.sub', 're.split', 're.findall') and len(args) >= 2 and isinstance(args[0], ARegex):
+            return self.call_method(args[0], name[3:], args[1:], e)
+        if name in ('os.path.join', 'os.path.dirname', 'os.path.basename', 'os.path.normpath', 'os.path.isabs', 'os.path.splitext', 'os.path.split') and args and \
+                all(isinstance(a, str) for a in args):
+            import posixpath as _pp
+            r = getattr(_pp, name.rsplit('.', 1)[1])(*args)
+            return tuple(r) if isinstance(r, tuple) else r
+        if name in ('pathlib.Path', 'pathlib.PurePosixPath', 'pathlib.PurePath') and len(args) == 1 and isinstance(args[0], str):
+            import pathlib as _pl
+            return Sym('hostpath', str(_pl.PurePosixPath(args[0])))
+        if name == 'urllib.parse.urljoin' and len(args) == 2 and all(isinstance(a, str) for a in args):
+            import urllib.parse as _up
+            return _up.urljoin(*args)
         if name in ('urllib.parse.quote', 'urllib.parse.quote_plus', 'urllib.parse.unquote', 'urllib.parse.unquote_plus') and args and all(isinstance(a, str) for a in args):
             import urllib.parse as _up
             kw = {k: v for k, v in (getattr(self, '_kwargs', None) or {}).items() if isinstance(v, str)}
@@ -1721,6 +1736,8 @@ class Interp:
             if not all(isinstance(x, (str, int, float, tuple)) or x is None for x in items):
                 self.bad(e, f'{name}() of non-constant items')
             return ASet(items) if name == 'set' else frozenset(items)
+        if name == 'str' and args and isinstance(args[0], Sym) and args[0].kind == 'hostpath':
+            return args[0].args[0]
         if name == 'str':
             return str(args[0]) if isinstance(args[0], (int, str, float)) or args[0] is None else Sym('str', args[0])
         if name == 'bool':
